@@ -32,9 +32,20 @@ theorem C01_tables :
 /-- **C01 (b)** — dispatch: each zone key of the statement opens a zone (for `documents`: in an
     `insert` command), and the three command attributes are exactly the ones walked -/
 theorem C01_dispatch :
-    (Spec.zoneKeys.all fun k => match Ctx.zoneState true k with | .Keep => false | _ => true) = true ∧
+    (Spec.zoneKeys.all fun k => match Ctx.zoneState true true k with | .Keep => false | _ => true) = true ∧
+    (Spec.zoneKeys.all fun k => match opZone true k with | .Keep => false | _ => true) = true ∧
+    (Spec.bulkZoneKeys.all fun k => match opZone true k with | .Keep => false | _ => true) = true ∧
     (Spec.commandAttrs.all fun a => cmdKeys.contains a) = true := by
   decide
+
+/-- **C01 (b')** — operations one level down: the document under `explain` and every element of
+    `ops` in a `bulkWrite` are walked as operations of their own (each of their zone keys opens its zone) -/
+theorem C01_nested_operations (c : Ctx) (hi : Bool) (op : List (Str × J)) (xs : List J) :
+    c.cmdEntry hi true (Spec.S "explain") (.obj op) = .obj (fromPairs (c.redactOperation op)) ∧
+    c.cmdEntry hi true (Spec.S "ops") (.arr xs) = .arr (xs.map c.opDoc) ∧
+    c.opDoc (.obj op) = .obj (fromPairs (c.redactOperation op)) ∧
+    c.redactOperation op = op.map (fun p => (p.1, c.cmdVal (lookup sInsert op).isSome p.1 p.2)) := by
+  refine ⟨rfl, rfl, rfl, rfl⟩
 
 /-- the value of a zone key really is walked: objects by the query walker, arrays by the array
     walker / per stage — nothing inside is skipped at the top -/
